@@ -6,6 +6,7 @@
 import NPModel.Refine.PackFlat
 import NPModel.Refine.Repacked
 import NPModel.Refine.TakeFill
+import NPModel.Refine.Observers
 namespace NP
 variable {α : Type}
 
@@ -182,6 +183,38 @@ theorem reorder_cols [Inhabited α] (df : FlatDF α) :
 theorem sortedByLabel_length {β : Type} (xs : List (Label × β)) : (sortedByLabel xs).length = xs.length :=
   (sortedByLabel_perm xs).length_eq
 
+theorem packedCol_clean (offs : List Nat) (cols : List (String × String × List α)) (hne : offs ≠ [])
+    (hm : monotone offs = true) (hl : ∀ c ∈ cols, offs.getLast?.getD 0 ≤ c.2.2.length) (hc : cols ≠ []) :
+    PCol.Clean { ty := cols.map fun c => (c.1, c.2.1), chunks := [packedChunk offs cols] } := by
+  constructor
+  · unfold PCol.WF
+    simp only [List.all_cons, List.all_nil, Bool.and_true, Bool.and_eq_true, decide_eq_true_eq]
+    exact ⟨packedChunk_WF offs _ hne hm hl, by rw [packedChunk_ty]⟩
+  · intro s hs
+    simp only [List.mem_cons, List.not_mem_nil, or_false] at hs
+    subst hs
+    unfold PStruct.nullEmpty packedChunk
+    rw [List.all_eq_true]
+    intro k hk
+    simp only [List.mem_map] at hk
+    obtain ⟨c, _, rfl⟩ := hk
+    unfold PList.nullEmpty
+    rw [List.all_eq_true]
+    intro p hp
+    have := (List.of_mem_zip hp).1
+    simp only [List.mem_replicate] at this
+    simp [this.2]
+  · unfold PCol.validate
+    obtain ⟨c0, cs, rfl⟩ := List.exists_cons_of_ne_nil hc
+    simp [PStruct.validate, packedChunk, pure, Except.pure, bind, Except.bind]
+  · intro s hs
+    simp only [List.mem_cons, List.not_mem_nil, or_false] at hs
+    subst hs
+    intro i hi hv
+    rw [packedChunk_len] at hi
+    simp [packedChunk, List.getD_eq_getElem?_getD, List.getElem?_replicate, hi] at hv
+  · simpa using hc
+
 /-- **`pack_flat` end to end.**  For ANY flat table with at least one column (any labels in any
     order, repeated or not): the call succeeds; the packed index lists the distinct labels of the
     table (ascending, each once — `packedKeys_strict`, `mem_packedKeys`); the packed column is
@@ -192,7 +225,8 @@ theorem packFlat_spec [Inhabited α] (df : FlatDF α) (hne : df.cols ≠ []) :
     ∃ packed, packFlat df = .ok packed ∧ packed.index = packedKeys df.index ∧
       packed.col.WF = true ∧ packed.col.aligned ∧
       packed.col.ty = df.cols.map (fun c => (c.1, c.2.1)) ∧
-      packed.col.rows = (packedKeys df.index).map (packedRow df) := by
+      packed.col.rows = (packedKeys df.index).map (packedRow df) ∧
+      packed.col.Clean ∧ packed.col.chunks ≠ [] := by
   let s := sortedByLabel df.index.zipIdx
   let runs := toRuns s
   let df' := df.reorder (stableSortPerm df.index) default
@@ -242,7 +276,7 @@ theorem packFlat_spec [Inhabited α] (df : FlatDF α) (hne : df.cols ≠ []) :
       simp only [List.length_map]
       rw [hidx, List.length_map])
     (by rw [hcols]; simpa using hne)
-  refine ⟨_, hok, ?_, ?_, ?_, ?_, ?_⟩
+  refine ⟨_, hok, ?_, ?_, ?_, ?_, ?_, ?_, ?_⟩
   · show ((packOffsets df'.index).dropLast).map (fun o => df'.index.getD o (.int 0)) = _
     rw [hidx, ← hlab, packed_index_is_run_keys (Label.int 0) runs hd, nonemptyRuns_toRuns]
     rfl
@@ -277,6 +311,8 @@ theorem packFlat_spec [Inhabited α] (df : FlatDF α) (hne : df.cols ≠ []) :
       rw [hsegs]
       simp only [List.getD_eq_getElem?_getD, List.getElem?_map, List.getElem?_eq_getElem hp, Option.map_some,
         Option.getD_some]
+  · exact packedCol_clean offs df'.cols hoffs_ne hoffs_mono hlast (by rw [hcols]; simpa using hne)
+  · exact List.cons_ne_nil _ _
 
 end NP
 
@@ -413,7 +449,7 @@ theorem addNested_left_rows [Inhabited α] (F : NFrame α) (hF : F.Consistent) (
         .ok (NFrame.setCol { index := F.index, cols := cols' } name (.nest col)) ∧
       All2 (fun p p' => p'.1 = p.1 ∧ ColData.same p.2 p'.2) F.cols cols' ∧
       col.rows = F.index.map fun l => if l ∈ flat.index then packedRow flat l else none := by
-  obtain ⟨packed, hpk, hkeys, hwf, hal, _, hrows⟩ := packFlat_spec flat hne
+  obtain ⟨packed, hpk, hkeys, hwf, hal, _, hrows, _, _⟩ := packFlat_spec flat hne
   obtain ⟨cols', hcols', hall⟩ := mapM_ok_all2 (takeColData ((List.range F.index.length).map some) na) _ F.cols
     (takeColData_identity F hF na)
   -- the lookup of the frame's labels in the packed index
@@ -554,5 +590,140 @@ theorem fromFlat_rows [Inhabited α] (index : List Label) (base nested : List (S
     intro l hl
     have : l ∈ index := mem_of_mem_filterBy keep index l hl
     simp only [this, if_true]
+
+end NP
+
+
+namespace NP
+variable {α : Type}
+
+/-! ### flattening the packed column gives the stably sorted table back -/
+
+theorem repeatEach_runs {β γ : Type} : ∀ (runs : List (β × List γ)),
+    repeatEach (runs.map (·.1)) (runs.map (·.2.length)) = runLabels runs := by
+  intro runs
+  induction runs with
+  | nil => rfl
+  | cons r rest ih =>
+    obtain ⟨k, l⟩ := r
+    rw [runLabels_cons, ← ih]
+    rfl
+
+theorem runVals_flatten {β γ : Type} (runs : List (β × List γ)) : runVals runs = (runs.map (·.2)).flatten := by
+  unfold runVals
+  rw [List.flatMap_def]
+
+theorem packed_runs (index : List Label) :
+    (toRuns (sortedByLabel index.zipIdx)).map (·.2) = (packedKeys index).map (recordsOf index) := by
+  show _ = ((toRuns (sortedByLabel index.zipIdx)).map (·.1)).map _
+  rw [List.map_map]
+  apply List.map_congr_left
+  intro r hr
+  exact runs_are_records index r hr
+
+/-- the records of all packed labels, label after label, are the stable sort permutation -/
+theorem records_flatten (index : List Label) :
+    ((packedKeys index).map (recordsOf index)).flatten = stableSortPerm index := by
+  rw [← packed_runs, ← runVals_flatten, (toRuns_labels_vals _).2]
+  rfl
+
+/-- every packed label repeated once per record is the sorted label column -/
+theorem labels_repeat (index : List Label) :
+    repeatEach (packedKeys index) ((packedKeys index).map fun k => (recordsOf index k).length) =
+      (sortedByLabel index.zipIdx).map (·.1) := by
+  have h : ((packedKeys index).map fun k => (recordsOf index k).length) =
+      (toRuns (sortedByLabel index.zipIdx)).map (·.2.length) := by
+    have := congrArg (List.map List.length) (packed_runs index)
+    rw [List.map_map, List.map_map] at this
+    exact this.symm
+  rw [h]
+  show repeatEach ((toRuns (sortedByLabel index.zipIdx)).map (·.1)) _ = _
+  rw [repeatEach_runs, (toRuns_labels_vals _).1]
+
+theorem find_named {β γ : Type} (g : String × β → γ) : ∀ (cols : List (String × β)),
+    (cols.map (·.1)).Pairwise (· ≠ ·) → ∀ c ∈ cols,
+    (cols.map fun c' => (c'.1, g c')).find? (·.1 == c.1) = some (c.1, g c) := by
+  intro cols
+  induction cols with
+  | nil => intro _ c hc; cases hc
+  | cons c0 cs ih =>
+    intro hd c hc
+    have ⟨h0, hd'⟩ := List.pairwise_cons.mp hd
+    rw [List.map_cons, List.find?_cons]
+    rcases List.mem_cons.mp hc with rfl | hc'
+    · simp
+    · have hne : c0.1 ≠ c.1 := h0 c.1 (List.mem_map_of_mem hc')
+      have : (c0.1 == c.1) = false := by simpa using hne
+      simp only [this]
+      exact ih hd' c hc'
+
+theorem packedRow_len [Inhabited α] (df : FlatDF α) (hne : df.cols ≠ []) (k : Label) :
+    Row.len (packedRow df k) = (recordsOf df.index k).length := by
+  obtain ⟨c0, cs, hc⟩ := List.exists_cons_of_ne_nil hne
+  unfold packedRow
+  rw [hc]
+  simp [Row.len]
+
+/-- **Packing then flattening is the stable sort by label.**  For ANY flat table with at least one
+    column and pairwise distinct column names: `pack_flat` succeeds, and `to_flat()` of the packed
+    series is the table stably sorted by label — the same records (cell for cell, in every column),
+    grouped by ascending label, original relative order kept inside every label; nothing lost,
+    duplicated or invented. -/
+theorem packFlat_toFlat [Inhabited α] (df : FlatDF α) (hne : df.cols ≠ [])
+    (hd : (df.cols.map (·.1)).Pairwise (· ≠ ·)) :
+    ∃ packed, packFlat df = .ok packed ∧
+      packed.toFlat none = .ok (df.reorder (stableSortPerm df.index) default) := by
+  obtain ⟨packed, hpk, hkeys, _, _, hty, hrows, hclean, hch⟩ := packFlat_spec df hne
+  refine ⟨packed, hpk, ?_⟩
+  have hidx : packed.index.length = packed.col.len := by
+    rw [← PCol.rows_length, hrows, hkeys, List.length_map]
+  have h := toFlat_refines packed.index packed.col hclean hch hidx
+  show NSeries.toFlat { index := packed.index, col := packed.col } none = _
+  rw [h]
+  unfold Spec.toFlat PCol.abs
+  simp only [Option.getD_none, hty, List.map_map]
+  have h1 : ((df.cols.map ((fun x => x.1) ∘ fun c => (c.1, c.2.1))).isEmpty) = false := by
+    obtain ⟨c0, cs, hc⟩ := List.exists_cons_of_ne_nil hne
+    rw [hc]; rfl
+  have h2 : (df.cols.map ((fun x => x.1) ∘ fun c => (c.1, c.2.1))).all
+      (fun f => (df.cols.map fun c => (c.1, c.2.1)).any (·.1 == f)) = true := by
+    rw [List.all_eq_true]
+    intro f hf
+    simp only [List.mem_map, Function.comp] at hf
+    obtain ⟨c, hc, rfl⟩ := hf
+    rw [List.any_eq_true]
+    exact ⟨(c.1, c.2.1), List.mem_map.mpr ⟨c, hc, rfl⟩, by simp⟩
+  simp only [h1, h2, Bool.false_eq_true, if_false, not_true_eq_false, pure, Except.pure]
+  congr 1
+  have hlens : Spec.lens packed.col.rows = (packedKeys df.index).map fun k => (recordsOf df.index k).length := by
+    unfold Spec.lens
+    rw [hrows, List.map_map]
+    apply List.map_congr_left
+    intro k _
+    exact packedRow_len df hne k
+  unfold FlatDF.reorder
+  congr 1
+  · unfold Spec.flatIndex
+    rw [hlens, hkeys, labels_repeat, reorder_index]
+  · apply List.map_congr_left
+    intro c hc
+    obtain ⟨n, t, v⟩ := c
+    simp only [Function.comp, Prod.mk.injEq, true_and]
+    constructor
+    · have := find_named (fun (c' : String × String × List α) => c'.2.1) df.cols hd (n, t, v) hc
+      simp only at this
+      rw [this]
+      rfl
+    · unfold Spec.flatField Spec.fieldLists
+      rw [hrows, List.map_map, ← records_flatten, List.map_flatten, List.map_map]
+      congr 1
+      apply List.map_congr_left
+      intro k _
+      simp only [Function.comp, packedRow]
+      have := find_named (fun (c' : String × String × List α) => (recordsOf df.index k).map fun j => c'.2.2.getD j default)
+        df.cols hd (n, t, v) hc
+      simp only at this
+      rw [this]
+      rfl
 
 end NP
